@@ -286,13 +286,21 @@ def fld_enc(ctx):
     obs.append(Ob(r, "enabled_modes:writers", ok, "GenericDataEncoder.enabled_modes is set once, from with_size's parameter", detail=[(w[0], T.canon(w[1])) for w in ws]))
     # --- optimize's result is its chosen plan's switch list plus a terminator naming the plan's own mode
     ob = find_body(f, "planner::shortest_path::optimize", r)
-    pushes = [(b, t) for b, t in ob.calls(lambda c, _t: T.canon(c).endswith("Vec::push"))
-              if "EncodationType" in ob.local_ty((t["args"][1].get("move") or t["args"][1].get("copy") or {"l": 0})["l"])]
+    # (the final selection may live in a private helper of the module that optimize calls)
+    bodies = [ob]
+    for _b0, t0 in ob.calls():
+        cn0 = T.canon(t0.get("resolved") or t0.get("callee") or "")
+        if cn0.startswith("encodation::planner::shortest_path::") and not cn0.endswith("::optimize"):
+            raw0 = next((m0 for n0, m0 in f.mir.items() if T.canon(n0) == cn0), None)
+            if raw0 is not None and all(bb.raw is not raw0 for bb in bodies if hasattr(bb, "raw")):
+                bodies.append(M.Body(raw0))
+    pushes = [(bd, b, t) for bd in bodies for b, t in bd.calls(lambda c, _t: T.canon(c).endswith("Vec::push"))
+              if "EncodationType" in bd.local_ty((t["args"][1].get("move") or t["args"][1].get("copy") or {"l": 0})["l"])]
     ok = len(pushes) == 1
     if ok:
-        e = ob.expr_of_operand(pushes[0][1]["args"][1])
+        e = pushes[0][0].expr_of_operand(pushes[0][2]["args"][1])
         ok = e[0] == "tuple" and e[1][0][:2] == ("const", 0) and e[1][1][0] == "call" and T.canon(e[1][1][1]).endswith("GenericPlan::current")
-    obs.append(Ob(r, "optimize:terminator", ok, "optimize appends exactly one entry to the chosen plan: (0, plan.current())", detail=[M.show(ob.expr_of_operand(t["args"][1])) for _b, t in pushes]))
+    obs.append(Ob(r, "optimize:terminator", ok, "optimize appends exactly one entry to the chosen plan: (0, plan.current())", detail=[M.show(bd.expr_of_operand(t["args"][1])) for bd, _b, t in pushes]))
     obs += floor(obs, r, 10, "field writer obligations")
     return obs
 
